@@ -22,7 +22,7 @@ worktree; I confirmed for each that the patch applies, that its demonstration fa
 without it, and then ran the property's quick check with the patch applied to /repo (and reverted it).  Details,
 including what each seed needs in order to manifest and what was changed in a check that missed it, are in
 seeded/<id>/meta.json.  %d seeds so far: %d caught by the check as it was committed at the time, %d missed at first;
-every miss led to a strengthening of the check (more of the behaviour behind the property), after which the seed
+every miss but the last one (C20-4, open: see 9.7a batch 9) led to a strengthening of the check (more of the behaviour behind the property), after which the seed
 is caught and the unchanged tree still passes.
 
 %s
@@ -34,7 +34,7 @@ complete-only), C08 (initial request-n 0 accepted), C09 (responder ignores CANCE
 cache removal - missed at first, see 9.6), C13 (modulo instead of mask; attempt bound; missing availability check), C14
 (lease counter off by one), C15 (>= in the time-out test), C16 (wrong error code), C18 (tag limit 256; MIME limit;
 6-bit id mask), header lemma (2-bit flag mask reduced to 1 bit).
-''' % (len(rows), len([r for r in rows if 'caught as committed' in r]), len([r for r in rows if '| missed' in r]), '\n'.join(table))
+''' % (len(rows), len([r for r in rows if 'caught as committed' in r]), len([r for r in rows if '| missed' in r or '| MISSED' in r]), '\n'.join(table))
 s = s[:start] + body
 open(p, 'w').write(s)
 print(len(rows), 'rows')
